@@ -81,7 +81,9 @@ FAILING = ["1 / 0", "7 % 0", "1.5 / 0", "[1, 2][5]", "[1][-1]", "map {1: 2}[3]",
            "g2(1)", "g2(1, 2, 3)", "len(1)", "len()", "first(5)", "push(1, 2)", "5(1)", '"s"()', "null[0]", "1[0]", "[1][true]", '"ab" * -1', "1 << \"a\"", "insert(1, 2, 3)",
            "g0() + zero()", "bad()", "[1, 2, 3][g2(1, 2)]", "int([])", "rest(1)", "contains([], 1)", "1 & 1.0", "map {[1]: 1}[map {}]"]
 FILLER = ["", "# a comment", "// another comment", "let k{n} = {n};", "k0 = k0 + 1;", "fn unused{n}(a) {{ return a / 0; }}", "let w{n} = [1, 2, 3];",
-          "let m{n} = map {{1: 2}};", "if k0 > 100 {{ k0 = 0; }}", "let q{n} = 0; while q{n} < 3 {{ q{n} = q{n} + 1; }}", "{{ let inner{n} = 1; }}", "push(obs, k0);"]
+          "let m{n} = map {{1: 2}};", "if k0 > 100 {{ k0 = 0; }}", "let q{n} = 0; while q{n} < 3 {{ q{n} = q{n} + 1; }}", "{{ let inner{n} = 1; }}", "push(obs, k0);",
+          # literals that cover several lines (the language has no escapes: this is how a newline is written)
+          "let s{n} = \"two\nlines\";", "let t{n} = \"a\n\n\nb\";", "let c{n} = '\n';", "push(obs, len(\"x\ny\"));"]
 
 
 def build(rng):
@@ -118,7 +120,7 @@ def build(rng):
     elif "bad()" in f:
         expect = 6
     else:
-        expect = max(i + 1 for i, l in enumerate(lines) if f in l)
+        expect = max(i + 1 for i, l in enumerate("\n".join(lines).split("\n")) if f in l)
     crlf = rng.random() < 0.25
     return ("\r\n" if crlf else "\n").join(lines) + ("\r\n" if crlf else "\n"), expect, crlf
 
